@@ -47,14 +47,30 @@ Qed.
    AST - at every depth - is rendered by a call that satisfies the reading property above (node_safe / tok_safe carry it
    down the tree; the children_ok hypothesis is discharged by the induction), and the complete output brings the reader
    back to character data. *)
-Theorem C02_whole_document_no_injected_markup : forall hw s out,
-  core_html true hw s = Ok out ->
-  exists ast, core_doc_parse hw s = Ok ast /\ out = html_doc E escape_ops ast /\
-              Forall (node_safe E escape_ops) ast /\ hrun Data out = Data.
+Lemma ext_template_cases : forall name (P : template -> Prop),
+  P tmpl_formatting_render_strikethrough -> P tmpl_formatting_render_mark -> P tmpl_formatting_render_insert ->
+  P tmpl_formatting_render_superscript -> P tmpl_formatting_render_subscript -> P tmpl_html_emphasis -> P (ext_template name).
+Proof. intros name P H1 H2 H3 H4 H5 H6. unfold ext_template. repeat (destruct (is_name name _); [assumption|]). assumption. Qed.
+
+Lemma ext_in : forall name, In (ext_template name, [KHtml], []) all_templates.
+Proof. intros name. apply (ext_template_cases name (fun t => In (t, [KHtml], []) all_templates)); unfold all_templates; repeat (first [left; reflexivity | right]). Qed.
+Lemma ext_atoms : forall name, t_atoms (ext_template name) = [].
+Proof. intros name. apply (ext_template_cases name (fun t => t_atoms t = [])); reflexivity. Qed.
+Lemma ext_plain : forall name p fs, In (SIns p fs) (eval (t_body (ext_template name)) []) -> fs = [].
 Proof.
-  intros hw s out H. unfold core_html, bind in H. destruct (core_doc_parse hw s) as [ast| |] eqn:Ea; try discriminate.
+  intros name. apply (ext_template_cases name (fun t => forall p fs, In (SIns p fs) (eval (t_body t) []) -> fs = []));
+    intros p fs Hin; cbn in Hin; repeat (destruct Hin as [Hin|Hin]; [inversion Hin; subst; reflexivity|]); contradiction.
+Qed.
+
+(* px: with the six inline plugins of the model (strikethrough, mark, insert, superscript, subscript, url) *)
+Theorem C02_whole_document_no_injected_markup : forall px hw s out,
+  html_x px true hw s = Ok out ->
+  exists ast, doc_parse_x px hw s = Ok ast /\ out = html_doc E escape_ops ext_template ast /\
+              Forall (node_safe E escape_ops ext_template) ast /\ hrun Data out = Data.
+Proof.
+  intros px hw s out H. unfold html_x, bind in H. destruct (doc_parse_x px hw s) as [ast| |] eqn:Ea; try discriminate.
   inversion H; subst out. exists ast. split; [reflexivity|]. split; [reflexivity|].
-  exact (doc_safe E escape_ops eq_refl
+  exact (doc_safe E escape_ops ext_template eq_refl ext_in ext_atoms ext_plain
            (fun t sig fixed vals Hin Hv Hd Hs Hc => C02_no_injected_markup t sig fixed vals Hin Hv Hd Hs Hc) ast).
 Qed.
 
